@@ -39,6 +39,12 @@ def run(ctx):
                 extra.append((ver, t))
     ctx.extra["accepted_edited_strings"] = len(extra)
     items += extra
+    # grammar verdicts (Lean) for every input in one batch: used to tell 'valid vector echoed in another field order' from
+    # 'accepted string that is not a vector at all' when the echoed vectorString fails the schema's pattern
+    if ctx.model_available:
+        todo = [(v, s) for v, s in dict.fromkeys(items) if core.sendable(s) and (v, s) not in _GRAMMAR]
+        for (v, s), vd in zip(todo, core.run_driver(["S\tacc\t%s\t%s" % (v, enc(s)) for v, s in todo])):
+            _GRAMMAR[(v, s)] = vd
     ctx.count(len(items) * 4)
     ctx.sample({"vector": items[0][1], "options": "sort x minimal"})
     for ver in "234":
@@ -135,6 +141,9 @@ def cross_check_jsonschema(ctx, sel):
     ctx.extra["jsonschema_package_cross_checked"] = len(docs) if bad is not None else 0
 
 
+_GRAMMAR = {}
+
+
 def refine(schema, d, s, loc):
     """make the failing location specific enough that a different failure is a different finding"""
     field = loc.split(":")[0].split(".")[-1] if loc.startswith("$.") else None
@@ -145,7 +154,20 @@ def refine(schema, d, s, loc):
         import re as _re
         pat = schema["properties"]["vectorString"]["pattern"]
         if val == s and _re.search(pat, s) is None:
-            return loc + "(echo of an input that is itself not in the official field order)", val
+            # a VALID vector written in another field order (the schema's pattern fixes the order), or a string that is not a
+            # vector of the version's grammar at all (decided by the Lean grammar) but was accepted and is echoed?
+            ver = "2" if "2.0" in str(schema.get("$id", schema.get("title", ""))) or d.get("version") == "2.0" else \
+                ("4" if str(d.get("version", "")).startswith("4") else "3")
+            verdict = _GRAMMAR.get((ver, s))
+            if verdict is None:
+                try:
+                    verdict = core.run_driver(["S\tacc\t%s\t%s" % (ver, enc(s))])[0] if core.sendable(s) else "unknown"
+                except Exception:  # noqa
+                    verdict = "unknown"
+                _GRAMMAR[(ver, s)] = verdict
+            if verdict == "ok" or verdict == "unknown":
+                return loc + "(echo of an input that is itself not in the official field order)", val
+            return loc + "(echo of an accepted string that is not a valid vector of the version)", val
         return loc, val
     if loc.endswith(":anyOf"):
         # which severity field, and would upper-casing it repair the band?
